@@ -389,10 +389,24 @@ func propC19(c bookCase, o *hx.Obs) *hx.Failure {
 					berr = fl
 				}
 			}()
+			// the watchdog grows with the book (tens of thousands of lines on one core of a busy machine, or in the
+			// -race build, legitimately take longer than 20 s): a slow build is inconclusive, only a build that does
+			// not end within ten times that allowance is reported as a hang
+			allow := 20*time.Second + time.Duration(len(c.Games))*5*time.Millisecond
 			select {
 			case <-done:
-			case <-time.After(20 * time.Second):
-				return hx.Failf("C19/build/hang", "building the %s book did not finish within 20 s", formatName[f])
+			case <-time.After(allow):
+				select {
+				case <-done:
+					o.Label("slow-build(inconclusive: ended within 10x the allowance)")
+				case <-time.After(9 * allow):
+					return hx.Failf("C19/build/hang", "building the %s book did not finish within %v", formatName[f], 10*allow)
+				}
+			}
+			select {
+			case <-done:
+			default:
+				return hx.Failf("C19/build/hang", "building the %s book did not finish", formatName[f])
 			}
 			if fl, ok := berr.(*hx.Failure); ok {
 				return fl
